@@ -301,8 +301,13 @@ func hC07RestOut() {
 // after the body whatever media type the upload declares.
 func hC07HttpBody() {
 	svc := newFakeService(pipeSvc)
-	svc.addMethodIn(pipeMethod, fkUnary, 0, false, fakeHTTPBodyDesc())
-	backend := &pipeBackend{target: ProtocolGRPC, unary: true, codec: CodecProto, bufSize: 16}
+	// the upload method is unary or client-streaming (the one stream shape a REST client can use for requests)
+	kind := fkUnary
+	if verifChoose("clientStream", 2) == 1 {
+		kind = fkClient
+	}
+	svc.addMethodIn(pipeMethod, kind, 0, false, fakeHTTPBodyDesc())
+	backend := &pipeBackend{target: ProtocolGRPC, unary: kind == fkUnary, codec: CodecProto, bufSize: 16}
 	fc := &fakeConfig{protocols: []Protocol{ProtocolGRPC}, codecs: []string{CodecProto}, maxMsg: 4096, fieldsMode: true}
 	rules := []*annotations.HttpRule{{Selector: pipeSvc + "." + pipeMethod, Pattern: &annotations.HttpRule_Post{Post: "/upload"}, Body: "*"}}
 	tr, err := newFakeTranscoder(svc, backend, fc, rules, nil)
@@ -310,7 +315,12 @@ func hC07HttpBody() {
 	if err != nil {
 		return
 	}
-	backend.script = &respScript{msgs: []wireMsg{{}}}
+	// the backend answers with the one response message such a method has - or, wrongly, with none or two
+	respCount := []int{1, 0, 2}[verifChoose("responses", 3)]
+	backend.script = &respScript{msgs: make([]wireMsg, respCount)}
+	for i := range backend.script.msgs {
+		backend.script.msgs[i].abstract = toyAppendFields(false, nil, &fakeMsg{}) // an (empty) message in the field-carrying toy encoding
+	}
 	contentType := []string{"application/octet-stream", "text/plain", "image/png", "application/json"}[verifChoose("contentType", 4)]
 	body := nondetBytes("body", verifChoose("bodyLen", 3))
 	wantType := contentType
@@ -342,6 +352,12 @@ func hC07HttpBody() {
 	verifAssert(ok, "C07: backend message decodes")
 	verifAssert(gotSet[1] && got[1] == string(body), "C07: HttpBody data = the raw request body")
 	verifAssert(gotSet[0] && got[0] == wantType, "C07: HttpBody content_type = the request's Content-Type, then query parameters")
+	if respCount == 1 {
+		verifAssert(sink.status == 200, "C07: the upload succeeds")
+	} else {
+		verifReach("upload-answered-with-wrong-number-of-messages")
+		verifAssert(sink.status != 200, "C03: an upload whose backend sent no or two response messages is not answered with a successful body")
+	}
 }
 
 // hC07HttpBodyResp: REST client downloading a google.api.HttpBody response (unary or server-streaming): the
